@@ -214,7 +214,24 @@ class _Scn(object):
                 'first_draws': [[e[0], e[1], (e[3] if not isinstance(e[3], list) or len(e[3]) < 12 else e[3][:12] + ['...'])] for e in res['trace'][:3]]}
 
 
-SCENARIOS = [_Scn()]
+class _Large(_Scn):
+    """the rejection loop of maketoeplitzCIJ at sizes where K reaches 1e5 (a tolerance-based count test would pass K +- 1)"""
+    ID = 'c20.large'
+    TIERS = {'quick': 4, 'thorough': 64}
+    WALL_S = 120
+
+    def generate(self, sub):
+        rnd = random.Random(sub)
+        n = rnd.randint(400, 460)
+        k = rnd.randint(100000, int(0.65 * n * (n - 1)))
+        return {'scn': self.ID, 'routine': 'maketoeplitzCIJ', 'params': {'n': n, 'k': k, 's': rnd.choice((200, 250, 300))}, 'seed': sub,
+                'policy': {'name': 'fair'}, 'budget': 4000, 'trace': None}
+
+    def shrink_candidates(self, case):
+        return iter(())
+
+
+SCENARIOS = [_Scn(), _Large()]
 RULE = ('one run = one call of one of the seven synthetic generators at a sampled grid point (N <= 8 quick / 16 thorough, all feasible K, cluster '
         'sizes, s, E, graphical degree-sequence pairs taken from a random digraph) with its permutation / uniform-matrix / repair-loop draws '
         'decided by the seeded SimRNG (fair, boundary permutations identity/reverse/rotation, all-low/all-high uniforms, colliding repair '
